@@ -12,7 +12,11 @@ import (
 // then the global contract table.
 func (x *Exec) contractOf(key string) *FuncContract {
 	if x.unitFn != nil && x.unitFn.Pkg != nil {
-		if m := x.db.Externs[x.unitFn.Pkg.Pkg.Path()]; m != nil {
+		file := ""
+		if x.unitC != nil {
+			file = x.unitC.File
+		}
+		if m := x.db.Externs[x.unitFn.Pkg.Pkg.Path()+"|"+file]; m != nil {
 			if c := m[key]; c != nil {
 				return c
 			}
